@@ -5,6 +5,7 @@ components ddiff printed: Apply(earlier, printed duration) must be the later val
 earlier, and ddiff B A must be ddiff A B with the sign flipped.  The real ddiff is run on all ordered pairs of point
 sets (boundary windows, month ends, leap days, far pairs; times with every borrow) for every duration format that goes
 down to the finest unit needed; month/year formats only with an earlier day-of-month <= 28."""
+import datetime
 from vlib import core, chain as chainmod, caldrv
 from checks import calcommon as cc
 from checks import diffcommon as dc
@@ -13,6 +14,26 @@ PID = "C05"
 DATE_FORMATS = [["d"], ["w", "d"], ["m", "d"], ["Y", "m", "d"], ["Y", "d"], ["Y", "w", "d"], ["Y", "m", "w", "d"], ["b"]]
 # month/year formats are claimed for pairs of dates only (property text); date-times get the fixed-length units
 DT_FORMATS = [["S"], ["M", "S"], ["H", "M", "S"], ["d", "H", "M", "S"], ["w", "d", "H", "M", "S"], ["d", "S"], ["w", "S"], ["H", "S"]]
+
+
+def is_leap(y):
+    return y % 4 == 0 and (y % 100 != 0 or y % 400 == 0)
+
+
+def yd_cell(a, bb, comps):
+    """the cell of the year/day difference's leap-day matrix a pair falls in, and by how many days the printed duration is off"""
+    e, l = (a, bb) if (a["ldn"], a["sod"]) <= (bb["ldn"], bb["sod"]) else (bb, a)
+
+    def pos(p):
+        k = (p["m"], p["d"])
+        return ("L" if is_leap(p["y"]) else "N") + ("<" if k < (2, 29) else "=" if k == (2, 29) else ">")
+    yrs = l["y"] - e["y"] - (1 if (l["m"], l["d"]) < (e["m"], e["d"]) else 0)
+    try:
+        days = l["ldn"] - (datetime.date(e["y"] + yrs, e["m"], e["d"]) - datetime.date(e["y"], e["m"], e["d"])).days - e["ldn"]
+        err = "years" if comps.get("Y") != yrs else "%+dd" % (comps.get("d", 0) - days)
+    except (ValueError, TypeError):
+        err = "?"
+    return "earlier %s later %s error %s" % (pos(e), pos(l), err)
 
 
 def main(tier):
@@ -59,12 +80,19 @@ def main(tier):
                 variants.append((False, [["d"], ["w", "d"], ["b"]] if (si + len(nota)) % 2 or not quick else [["d"]], nota))
             if si == 0 or not quick:
                 variants.append((False, [["d"], ["b"]] if quick else [["d"], ["w", "d"], ["b"]], "bizda"))
+            if si == 0:
+                # the year/day format's leap-day correction is a matrix over (leap year?, before / on / after 29 Feb) of both operands: every cell
+                variants.append((False, [["Y", "d"]], "ydcells"))
             for with_time, formats, nota in variants:
                 pts = [dc.point(ch, l, rng.choice([0, 1, 43199, 43200, 86399]) if with_time else 0) for l in ls]
                 if nota and si == 0:
                     # the fixed set is about borrows; for notations what matters are pairs far apart and across century years
                     pts = [dc.point(ch, l, 0) for l in sorted(set(ch.ldn_of(y, mo, d) for y in (1700, 1899, 1900, 2000, 2100, 2399, 2400, 2401, 2800, 2801, 3200, 3201, 4000)
                                                                  for mo, d in ((1, 1), (3, 1), (12, 31))))]
+                if nota == "ydcells":
+                    nota = None
+                    pts = [dc.point(ch, ch.ldn_of(y, mo, d), 0) for y in (1896, 1900, 2000, 2007, 2008, 2011, 2012, 2015, 2016, 2020, 2096, 2100, 2104)
+                           for mo, d in ((1, 15), (2, 28), (2, 29), (3, 1), (3, 5), (7, 4), (12, 28)) if not (mo == 2 and d == 29 and not is_leap(y))]
                 if nota == "bizda":
                     # business-day dates reach the day count through per-year-type tables: business days spread over all fourteen year types
                     if si == 0:
@@ -102,8 +130,20 @@ def main(tier):
             a, bb = bad["a"], bad["b"]
             span = abs(a["ldn"] - bb["ldn"])
             what = "antisymmetry" if bad.get("comps") != bad.get("rcomps") else "apply-or-sign"
+            if bad.get("fmt") == "Yd":
+                # one key per cell of __yd_diff's correction matrix and per size of the error, so that a recorded cell does not cover another one
+                return "ddiff format Yd: %s, %s" % (what, yd_cell(a, bb, bad.get("comps") or {}))
             return "ddiff format %s%s: %s" % (bad.get("fmt"), " (date-times)" if a["sod"] or bb["sod"] else "", what)
-        cc.validate_and_report(rep, "DiffTrace", "DiffTrace.cfg", execs, key, "ddiff_pair", group=lambda ex: ex[0]["fmt"] + ("T" if ex[0]["a"]["sod"] or ex[0]["b"]["sod"] else ""))
+        def grp(ex):
+            e = ex[0]
+            if e["fmt"] == "Yd":
+                # validation stops keying a class after a few rejections: pairs of the year/day format are classed by matrix cell and size of
+                # the error beforehand (scheduling only -- acceptance is still DiffTrace's), so that every failing cell gets its own key
+                c = yd_cell(e["a"], e["b"], e.get("comps") or {})
+                if not c.endswith("error +0d") or e.get("comps") != e.get("rcomps"):
+                    return "Yd " + c + (" antisym" if e.get("comps") != e.get("rcomps") else "")
+            return e["fmt"] + ("T" if e["a"]["sod"] or e["b"]["sod"] else "")
+        cc.validate_and_report(rep, "DiffTrace", "DiffTrace.cfg", execs, key, "ddiff_pair", group=grp)
         rep.cov["rule"] = ("one trace = one ordered pair (A, B) x duration format: ddiff A B and ddiff B A; point sets: 3|25 clusters of 26|40 days "
                            "(boundary windows +-70, +-800 days, seeded far days), all ordered pairs; formats: d, w d, m d, Y m d, Y d, Y w d, Y m w d, "
                            "business days, and for date-times S, M S, H M S, d H M S, w d H M S, d S, Y m d H M S, m d S")
